@@ -618,6 +618,17 @@ def check_sorted_is_written(ctx, f, call):
 # ---------------------------------------------------------------------------------------------
 
 
+def _names_through(e, defs, depth=2):
+    """names read by e, and by the single definitions of those names (two levels)"""
+    out = {x.id for x in ast.walk(e) if isinstance(x, ast.Name)}
+    if depth:
+        for nm in list(out):
+            d = [x for x in defs.get(nm, []) if x is not None]
+            if len(d) == 1:
+                out |= _names_through(d[0], defs, depth - 1)
+    return out
+
+
 def check_provenance(ctx):
     repo = ctx.repo
     sort_f = None
@@ -645,7 +656,7 @@ def check_provenance(ctx):
     pdefs = local_defs(pa.node)
     olist_ = _sc.scaffold_orientation_list(pa)
     for n in walk_own(pa.node):
-        if isinstance(n, ast.If) and (".count(" in resolve_expr(pa.node, n.test, defs=pdefs) or (olist_ is not None and olist_ in {x.id for x in ast.walk(n.test) if isinstance(x, ast.Name)})):
+        if isinstance(n, ast.If) and (".count(" in resolve_expr(pa.node, n.test, defs=pdefs) or (olist_ is not None and olist_ in _names_through(n.test, pdefs))):
             # the one whose branches assign the key variables
             assigned = {norm(t) for st in walk_stmts(n.body) if isinstance(st, ast.Assign) for t in st.targets}
             if len(assigned) >= 2 and n.orelse:
@@ -682,8 +693,11 @@ def check_provenance(ctx):
                 raise AnalysisError("R08.2", where, f"orientation-majority test outside the fragment: {e}")
             by_lists = []
             try:
+                mk_ = _sc.orientation_collection(pa, olist_)
+                if mk_ is None:
+                    raise _sc.ListUnsupported(f"`{olist_}` is neither appended to nor added to")
                 for L_ in _sc.orientation_lists(4):
-                    by_lists.append((L_, bool(_sc.eval_list_test(branch.test, olist_, L_, pdefs))))
+                    by_lists.append((L_, bool(_sc.eval_list_test(branch.test, olist_, mk_(L_), pdefs))))
             except _sc.ListUnsupported as e2:
                 raise AnalysisError("R08.2", where, f"orientation-majority test outside the fragment: {e} / {e2}")
             rows = []
